@@ -9,10 +9,13 @@
    - the rotation primitive sends index i to (i + shift) mod n for every integer shift; flipping with no axis
      reverses the flat order; an axis outside the rank is an error value; rot90's guards (rank >= 2, exactly two axes)
      and the k = 0 (mod 4) identity; all results well formed.
+   - QUARTER TURNS: C12_rot90_one — one turn in the plane (p, q) is the flip of the second axis followed by the
+     exchange of the two axes, as a coordinate map; C12_rot90_two — two turns equal two successive single turns and
+     are the flip of both axes; C12_rot90_mod4 — the count matters only modulo four (k = 0: the array itself).
    NOT YET PROVED (exhaustively checked by the correspondence run, incl. the inverse laws flip-flip,
    roll(s)-roll(-s) and k + (4-k) quarter turns executed on the implementation): roll with several (shift, axis)
-   pairs (the per-axis accumulation), roll of rank-1 arrays / with no axis as an array-level statement, and the
-   coordinate statement for rot90 (it is a flip composed with a transpose, both of which have their theorems). *)
+   pairs (the per-axis accumulation), roll of rank-1 arrays / with no axis as an array-level statement, three quarter
+   turns as three successive single turns, and negative spellings of the rot90 axes. *)
 From ArrRs Require Import Index Axis Axis_proofs Broadcast_proofs Reorder Reorder_proofs Reorder_axis.
 
 Theorem C12_rotate : forall (A : Type) (d : A) (l : list A) (s : Z) i, i < length l ->
@@ -86,6 +89,24 @@ Proof. exact @roll_one_axis. Qed.
 
 Theorem C12_rot_src_def : forall s n i, rot_src s n i = Z.to_nat ((Z.of_nat i - s) mod Z.of_nat n).
 Proof. reflexivity. Qed.
+
+Theorem C12_rot90_one : forall (T : Type) (dflt : T) (a : arr T) k p q,
+  wf a -> pos_shape (shape a) -> 2 <= ndim a -> (Z.of_nat (ndim a) < two64)%Z -> p < ndim a -> q < ndim a -> k mod 4 = 1 ->
+  exists R, rot90 dflt a k [Z.of_nat p; Z.of_nat q] = Ok R /\ wf R /\ shape R = swap_list (shape a) p q /\
+    forall c, in_range (shape R) c ->
+      get dflt R c = get dflt a (upd (swap_list c p q) q (nth q (shape a) 0 - 1 - nth p c 0)).
+Proof. exact @rot90_one. Qed.
+
+Theorem C12_rot90_two : forall (T : Type) (dflt : T) (a : arr T) p q,
+  wf a -> pos_shape (shape a) -> 2 <= ndim a -> (Z.of_nat (ndim a) < two64)%Z -> p < ndim a -> q < ndim a -> p <> q ->
+  exists R1 R, rot90 dflt a 1 [Z.of_nat p; Z.of_nat q] = Ok R1 /\ rot90 dflt R1 1 [Z.of_nat p; Z.of_nat q] = Ok R /\
+    rot90 dflt a 2 [Z.of_nat p; Z.of_nat q] = Ok R /\ shape R = shape a /\
+    forall c, in_range (shape a) c ->
+      get dflt R c = get dflt a (upd (upd c p (nth p (shape a) 0 - 1 - nth p c 0)) q (nth q (shape a) 0 - 1 - nth q c 0)).
+Proof. exact @rot90_two. Qed.
+
+Theorem C12_rot90_mod4 : forall (T : Type) (dflt : T) (a : arr T) k axes, rot90 dflt a k axes = rot90 dflt a (k mod 4) axes.
+Proof. exact @rot90_mod4. Qed.
 
 Example C12_axis_nonvacuous :
   flip 0%Z (mk (map Z.of_nat (seq 0 12)) [2;3;2]) (Some [(-2)%Z]) = Ok (mk [4;5;2;3;0;1;10;11;8;9;6;7]%Z [2;3;2]) /\
